@@ -10,6 +10,8 @@ import (
 	"fmt"
 	"go/ast"
 	"go/parser"
+	"go/token"
+	"go/types"
 	"os"
 	"strconv"
 	"strings"
@@ -120,6 +122,28 @@ func parseContracts(path, pkgPath string, external bool) ([]*Contract, map[strin
 				return fmt.Errorf("%s:%d: %v in %q", path, cl.Line, err, src)
 			}
 			cl.Expr = e
+		}
+		// one obligation per conjunct / per direction of an iff
+		if !cl.Canary && (cl.Kind == "ensures" || cl.Kind == "invariant" || cl.Kind == "requires") {
+			if parts := splitExpr(cl.Expr); len(parts) > 1 {
+				for k, pe := range parts {
+					pc := *cl
+					pc.Expr = pe
+					pc.Text = fmt.Sprintf("%s [part %d: %s]", cl.Text, k+1, types.ExprString(pe))
+					switch cl.Kind {
+					case "requires":
+						cur.Requires = append(cur.Requires, &pc)
+					case "ensures":
+						cur.Ensures = append(cur.Ensures, &pc)
+					case "invariant":
+						if cur.Loops == nil {
+							cur.Loops = map[int][]*Clause{}
+						}
+						cur.Loops[cl.Loop] = append(cur.Loops[cl.Loop], &pc)
+					}
+				}
+				return nil
+			}
 		}
 		switch cl.Kind {
 		case "requires":
@@ -286,6 +310,39 @@ func parseContracts(path, pkgPath string, external bool) ([]*Contract, map[strin
 		return nil, nil, err
 	}
 	return out, preds, nil
+}
+
+// splitExpr splits top-level conjunctions and iff(a,b) into parts.
+func splitExpr(e ast.Expr) []ast.Expr {
+	switch t := e.(type) {
+	case *ast.ParenExpr:
+		return splitExpr(t.X)
+	case *ast.BinaryExpr:
+		if t.Op == token.LAND {
+			return append(splitExpr(t.X), splitExpr(t.Y)...)
+		}
+	case *ast.CallExpr:
+		if id, ok := t.Fun.(*ast.Ident); ok && len(t.Args) == 2 {
+			switch id.Name {
+			case "iff":
+				imp := func(a, b ast.Expr) ast.Expr {
+					return &ast.CallExpr{Fun: &ast.Ident{Name: "implies"}, Args: []ast.Expr{a, b}}
+				}
+				return []ast.Expr{imp(t.Args[0], t.Args[1]), imp(t.Args[1], t.Args[0])}
+			case "implies":
+				// implies(a, b && c) -> implies(a,b), implies(a,c)
+				rhs := splitExpr(t.Args[1])
+				if len(rhs) > 1 {
+					var out []ast.Expr
+					for _, r := range rhs {
+						out = append(out, &ast.CallExpr{Fun: &ast.Ident{Name: "implies"}, Args: []ast.Expr{t.Args[0], r}})
+					}
+					return out
+				}
+			}
+		}
+	}
+	return []ast.Expr{e}
 }
 
 // qualify turns "(*Cipher).XORKeyStream" / "Key" into ssa's full name.
